@@ -401,8 +401,13 @@ structure Codec where
   decodeKey : RR → Key
   decodeDS : RR → DS
 
-def dsSetOf (zone : Name) (m : Msg) : List RR := m.answer.filter fun r => keyOf r == (zone, tDS, 1)
-def keySetOf (zone : Name) (m : Msg) : List RR := m.answer.filter fun r => keyOf r == (zone, tDNSKEY, 1)
+/-- all signatures travelling with a response. -/
+def Msg.sigs (m : Msg) : List Sig := m.ansSigs ++ m.nsSigs
+
+/-- the DS RRset of `zone` as the validator of `parent` collected it from a response. -/
+def dsSetOf (zone parent : Name) (m : Msg) : List RR := rrsetOf (collected parent m) (zone, tDS, 1)
+/-- the DNSKEY RRset of `zone` as collected from its DNSKEY response. -/
+def keySetOf (zone : Name) (m : Msg) : List RR := rrsetOf (collected zone m) (zone, tDNSKEY, 1)
 
 /-- `Resolver.verifyRootKeys`: only configured anchors with flags 257 may sign the root DNSKEY RRset. -/
 def verifyRootKeys (sv : Key → Sig → List RR → Bool) (now : Int) (anchors : List Key) (rootKeyMsg : Msg) : Res :=
@@ -417,7 +422,7 @@ def walk (sv : Key → Sig → List RR → Bool) (dm : Key → DS → Bool) (now
     if !(nameInZone l.zone z && l.zone != z) then none
     else if verifyRRSIG sv now z ks l.dsMsg != .ok then none
     else
-      let ds := (dsSetOf l.zone l.dsMsg).map c.decodeDS
+      let ds := (dsSetOf l.zone z l.dsMsg).map c.decodeDS
       let keys := zoneKeys l.zone ((keySetOf l.zone l.keyMsg).map c.decodeKey)
       if ds.isEmpty || keys.isEmpty then none
       else if verifyDS dm keys ds != .matched then none
